@@ -182,10 +182,23 @@ func (m *M) obs() []kv {
 		es[i] = []kv{{"enc", enc}, {"id", e.IsIdentity()}, {"y", w}, {"sq", sq}}
 	}
 	ss := make([]any, len(m.S))
+	seq := make([]int, len(m.S))
 	for i, s := range m.S {
-		ss[i] = s.Encode()
+		enc := s.Encode()
+		ss[i] = enc
+		// canonical-representation probe: the stored limbs must be those of the value Encode reports
+		// (a non-canonical stored value is invisible to Encode but not to Equal / IsZero)
+		seq[i] = 1
+		if len(enc) == 32 {
+			if v := new(big.Int).SetBytes(enc); v.Cmp(bigN) < 0 {
+				ref := secp256k1.NewScalar()
+				l := montLimbs(v, bigN)
+				copy(ref.S[:], l[:])
+				seq[i] = s.Equal(ref)
+			}
+		}
 	}
-	return []kv{{"E", es}, {"S", ss}}
+	return []kv{{"E", es}, {"S", ss}, {"Seq", seq}}
 }
 
 // emit writes one event with the full observation of the pool.
